@@ -179,8 +179,11 @@ pub fn minimise(sc: &ThreadScenario, target: &str, budget: usize) -> (ThreadScen
                         v
                     }
                     Op::Iter { kind, q, limit: Some(_) } => vec![Op::Iter { kind: *kind, q: q.clone(), limit: None }],
-                    Op::ReplaceAllWith { q, table, stop_after, nested } if stop_after.is_some() || nested.is_some() => {
-                        vec![Op::ReplaceAllWith { q: q.clone(), table: table.clone(), stop_after: None, nested: None }]
+                    Op::ReplaceAllWith { q, table, stop_after, nested, panic_at } if stop_after.is_some() || nested.is_some() || panic_at.is_some() => {
+                        vec![
+                            Op::ReplaceAllWith { q: q.clone(), table: table.clone(), stop_after: None, nested: None, panic_at: *panic_at },
+                            Op::ReplaceAllWith { q: q.clone(), table: table.clone(), stop_after: None, nested: None, panic_at: None },
+                        ]
                     }
                     Op::Find(q) | Op::IsMatch(q) | Op::FindInfallible(q) if q.span.is_some() || q.anchored || q.earliest => {
                         let mut q2 = q.clone();
